@@ -120,12 +120,13 @@ def grid3d(b, rng, nx, ny, nz, kind, origin=(0, 0, 0)):
                         b.cell('pyr', [c[q] for q in f] + [ctr])
 
 
-def to_second_order(b, rng):
+def to_second_order(b, rng, prob=1.0):
     """tet -> tet2, hex -> hex2 by inserting mid-edge nodes (coordinates are
-    doubled lattice points, so mid points are integral)"""
+    doubled lattice points, so mid points are integral); with prob < 1 only
+    some cells are converted, so tet+tet2 / hex+hex2 coexist"""
     new = []
     for t, ns in b.cells:
-        if t in ('tet', 'hex'):
+        if t in ('tet', 'hex') and rng.random() < prob:
             edges = TET_EDGES if t == 'tet' else HEX_EDGES
             mids = []
             for a, c in edges:
@@ -202,7 +203,8 @@ def gen_mesh(rng, kind=None, max_nodes=26, id_mode=None, components=None, n_unre
                         'hex2': 'hex', 'mixed3d2': 'mixed3d', 'mixed3dv': 'mixed3dv'}[kind]
                 grid3d(b, rng, rng.randint(lo, 2), rng.randint(1, 2), 1, base, org)
         if kind in ('tet2', 'hex2', 'mixed3d2'):
-            to_second_order(b, rng)
+            to_second_order(b, rng, rng.choice([1.0, 1.0, 0.5]) if kind != 'mixed3d2' else
+                            rng.choice([1.0, 0.5, 0.5]))
         if len(b.coords) + n_unref <= max_nodes:
             break
     else:
